@@ -647,6 +647,8 @@ def run_file(pl):
              'multi_table': 0, 'skipping': 0}
     samples = []
     n_reduced = 0
+    n_repeat_failed = 0
+    l2_uses = 0
     hyp = {'selections': 0, 'wf_file': 0, 'wf_metas': 0, 'covers': 0, 'in_hang_class': 0, 'hang_class_and_timeout': 0}
     partner = None
     if pl.get('partner'):
@@ -654,7 +656,8 @@ def run_file(pl):
         except Exception: partner = None
     l2 = None                  # one reader serves all calls of the file; it is re-opened after a call that did not return or raised
     for k, c in enumerate(calls):
-        if l2 is None: l2 = nav.open_listing(path)
+        if l2 is None: l2, l2_uses = nav.open_listing(path), 0
+        l2_uses += 1
         if l2.index != c['index']: l2.index = c['index']
         before = nav.snap(l2, names)
         sel = c['sel']
@@ -706,7 +709,20 @@ def run_file(pl):
         if status == 'timeout':
             stats['timeout'] += 1
             key = hang_key(sim, c['tables']) or 'history:%s:no-return:%s' % (sim, '+'.join(c['tables']))
-            fail(key, 'history() did not return within %.1f s (an ordinary call on this file takes %.3f s)' % (limit, base), 'the call terminates')
+            obs = 'history() did not return within %.1f s (an ordinary call on this file takes %.3f s)' % (limit, base)
+            if l2_uses > 1 and n_repeat_failed < 3:
+                # the reader had served earlier calls (with reads of its attributes and table lookups in between): does a fresh one return?
+                l3 = nav.open_listing(path)
+                if l3.index != c['index']: l3.index = c['index']
+                st3, _ = call_history(l3, sel[0] if (c['form'] == 'tuple' and len(sel) == 1) else list(sel), c['short'], limit)
+                try: l3.close()
+                except Exception: pass
+                if st3 == 'ok':
+                    n_repeat_failed += 1
+                    key = 'history:result-depends-on-earlier-lookups'
+                    obs += ' on a reader that had served %d earlier history() calls with reads of its public attributes (table_names, times, ...) and table[key] lookups in between; on a freshly opened reader the same call returns' % (l2_uses - 1)
+                    inp = dict(inp, sequence=['history(selection)', 'read table_names, times, fulltimes, steps, num_times, title, simulator, time, step, index; table[key] for every selected row', 'history(selection)'])
+            fail(key, obs, 'the call terminates')
             if mo is not None and mo != 'RAISE OutOfFuel': disagree(mo[:200], 'no return within the time limit')
         elif status == 'raise':
             stats['raise'] += 1
@@ -798,8 +814,12 @@ def run_file(pl):
             # look every selected row up in its table through the public interface (table[key], what a user stepping through
             # the times does), call history() again on the same object with the same selection: same result
             if arg_changed: fail('history:mutates-selection-argument', 'the selection passed in was changed by the call', 'the caller\'s selection is left as it was')
-            if got is not None:
+            if got is not None and n_repeat_failed < 3:
                 stats['repeat_after_lookup'] = stats.get('repeat_after_lookup', 0) + 1
+                for attr_ in ('table_names', 'times', 'fulltimes', 'steps', 'fullsteps', 'num_times', 'num_fulltimes', 'title', 'simulator', 'time', 'step',
+                              'index', 'short_types', 'filename'):          # reading the reader's public attributes and properties
+                    try: getattr(l2, attr_)
+                    except Exception: pass
                 for it in sel[:400]:
                     tname_ = spec_table(it[0])
                     if tname_ in tabs:
@@ -820,8 +840,9 @@ def run_file(pl):
                     if which is not None:
                         inp = dict(inp, selection=nav.sel_to_json([sel[which]]), form='list', reduced_from_items=len(sel))
                         obs = 'item %r: first call %r..., after table[key] lookups of the selected rows the same call gives %r...' % (sel[which], [float(x) for x in got[which][1][:3]], [float(x) for x in got2[which][1][:3]])
-                    else: obs = 'second call: %s' % (st2 if st2 != 'ok' else 'different shape / None')
-                    inp = dict(inp, sequence=['history(selection)', 'table[key] for every selected row', 'history(selection)'])
+                    else: obs = 'the first call returns; after reading the reader\'s public attributes (table_names, times, ...) and table[key] of the selected rows, the same call: %s' % ('did not return within %.1f s' % limit if st2 == 'timeout' else st2 if st2 != 'ok' else 'different shape / None')
+                    inp = dict(inp, sequence=['history(selection)', 'read table_names, times, fulltimes, steps, num_times, title, simulator, time, step, index; table[key] for every selected row', 'history(selection)'])
+                    n_repeat_failed += 1
                     fail('history:result-depends-on-earlier-lookups', obs, 'the same series whatever was looked up in the tables before (they are the stepping series)')
                     inp = inp_full
                     try: l2.close()
